@@ -210,8 +210,9 @@ class ExpressionStream(Stream):
             "without two identifiers in a row, valid expressions of depth <= 4 and one-edit breakages of them, spelt with and without blanks "
             "inside parentheses, and expressions nested 50 … 3000 levels deep (parentheses only, alternating AND / OR, left-nested, never "
             "closed); placed as a REUSE.toml value (string / array element / nested file), a tag in a covered file, in FILE.license, the "
-            "--license option, a dep5 License field, a literal in a template; x the sub-commands that load the project (quick: a seeded "
-            "sample of (expression, placement, command), every internal-failure-prone shape included; thorough: all); oracle from the "
+            "--license option, a dep5 License field, a literal in a template; x the sub-commands that load the project (a seeded "
+            "sample of (expression, placement, command): quick 550, thorough 7000, the short operator-and-parenthesis sequences "
+            "over-represented); oracle from the "
             "property text with SPDX Annex D as the definition of 'unparseable' — never a traceback, status in {0, 1, 2}, broken REUSE.toml "
             "=> 2 naming the file, bad tag => read error or no information while the neighbour keeps its report, bad --license => usage "
             "error and nothing written; oracle only; non-trivial = distinct (placement, command, validity, outcome)")
@@ -255,13 +256,15 @@ class ExpressionStream(Stream):
                     if lenient:
                         c["lenient"] = True
                     allc.append(c)
-        if tier != "thorough":
-            # keep every (placement, command) for the sequences made of parentheses and operators only — the shapes a parser is
-            # most likely never to have been shown — and a seeded sample of the rest
-            core = [c for c in allc if not c["valid"] and len(c["e"]) <= 12 and c["pl"] in ("toml", "tag", "option")
-                    and c["cmd"] in ("lint-json", "annotate", "annotate-option", "spdx")]
-            rest = [c for c in allc if c not in core]
-            allc = rng.sample(core, min(len(core), 200)) + rng.sample(rest, min(len(rest), 350))
+        # the full product (expressions x placements x commands) is some 10^5 command runs: a seeded sample of it, in which the
+        # short sequences made of parentheses and operators only — the shapes a parser is most likely never to have been shown —
+        # in the placements that reach every handler are over-represented
+        core = [c for c in allc if not c["valid"] and len(c["e"]) <= 12 and c["pl"] in ("toml", "tag", "option")
+                and c["cmd"] in ("lint-json", "annotate", "annotate-option", "spdx")]
+        keys = {id(c) for c in core}
+        rest = [c for c in allc if id(c) not in keys]
+        n_core, n_rest = (2500, 4500) if tier == "thorough" else (200, 350)
+        allc = rng.sample(core, min(len(core), n_core)) + rng.sample(rest, min(len(rest), n_rest))
         for c in allc:
             yield c
         depths = [50, 120, 200, 300, 600, 1500, 3000] if tier == "thorough" else [300, 1500]
